@@ -123,11 +123,12 @@ def c06(tier, seed):
     ck = Check('C06', tier, seed)
     prog = load_program()
     ck.selftest = quick_selftest(prog, seed, 8 if tier == 'quick' else 100, kinds=['mem'])
-    la_max, lb_max = (5, 4) if tier == 'quick' else (7, 5)
+    la_max, lb_max = (6, 5) if tier == 'quick' else (9, 6)
     cases = []
     for la in range(la_max + 1):
         for lb in range(lb_max + 1):
             if la >= 5:
+                # split the heavy classes by first (and for the longest arguments second) byte to balance the pool
                 for first in mod.ALPHA:
                     if first != 0xa9:
                         cases.append({'la': la, 'lb': lb, 'first': first})
